@@ -37,11 +37,12 @@ class _Partial(dict):
         return dict.__getitem__(self, k)
 
 
-def _cargo_progs(timeout=5400):
+def _cargo_progs(timeout=7200, extra=False):
     """cargo build of run_progs with the generated programs; returns (bindir or None, full output)"""
     ws = vlib.HARNESS
     vlib.ensure_lock(ws)
-    cmd = ["cargo", "build", "--offline", "--release", "-p", "hv_dfir", "--bin", "run_progs", "--features", "progs"]
+    cmd = ["cargo", "build", "--offline", "--release", "-p", "hv_dfir", "--bin", "run_progs", "--features",
+           "progs_x" if extra else "progs"]
     e = dict(os.environ)
     e["CARGO_NET_OFFLINE"] = "true"
     e["CARGO_TERM_COLOR"] = "never"
@@ -61,15 +62,25 @@ _ERR_LOC = re.compile(r"^\s*--> (\S+?):(\d+):(\d+)")
 
 def _map_build_errors(output):
     """rustc diagnostics -> ({program id: [messages]}, [errors that are NOT inside a generated program])"""
-    src = open(os.path.join(vlib.HARNESS, "hv_dfir", "src", "gen_progs.rs")).read().splitlines()
-    starts = []     # (line number, program id) of every `pub fn pNNN(`
-    for i, ln in enumerate(src, start=1):
-        m = re.match(r"pub fn p(\d+)\(", ln)
-        if m:
-            starts.append((i, int(m.group(1))))
-    run_line = next((i for i, ln in enumerate(src, start=1) if ln.startswith("pub fn run(")), len(src) + 1)
+    index = {}      # file name -> (starts [(line, program id)], line of `pub fn run`)
+    for fn_rs in ("gen_progs.rs", "gen_progs_x.rs"):
+        try:
+            src = open(os.path.join(vlib.HARNESS, "hv_dfir", "src", fn_rs)).read().splitlines()
+        except OSError:
+            continue
+        starts = []
+        for i, ln in enumerate(src, start=1):
+            m = re.match(r"pub fn p(\d+)\(", ln)
+            if m:
+                starts.append((i, int(m.group(1))))
+        run_line = next((i for i, ln in enumerate(src, start=1) if ln.startswith("pub fn run(")), len(src) + 1)
+        index[fn_rs] = (starts, run_line)
 
-    def owner(line):
+    def owner(path, line):
+        fn_rs = os.path.basename(path.replace("\\", "/"))
+        if fn_rs not in index or not path.replace("\\", "/").endswith("hv_dfir/src/" + fn_rs):
+            return None
+        starts, run_line = index[fn_rs]
         if line >= run_line:
             return None
         best = None
@@ -102,7 +113,7 @@ def _map_build_errors(output):
             unmapped.append(b["msg"])
             continue
         path, line = b["loc"]
-        pid = owner(line) if path.replace("\\", "/").endswith("hv_dfir/src/gen_progs.rs") else None
+        pid = owner(path, line)
         if pid is None:
             unmapped.append("%s (%s:%d)" % (b["msg"], path, line))
         else:
@@ -115,9 +126,9 @@ ENGINE = "spec/DfirTick: reference interpreter of DFIR tick semantics in TLA+ (T
 _TECH = "TLA+ reference interpreter evaluated by TLC on traces recorded from the real runtime (trace validation) + TLC model checking of the interpreter on tiny programs"
 MANIFEST = {
     "C21": {"text": "Every operator x persistence combination (hand-written corpus + seeded random typed DAGs, closures from a closed vocabulary defined identically in TLA+ and Rust) is built with dfir_syntax!, driven with seeded per-tick input histories through run_tick_sync/run_available_sync, and TLC requires every sink's per-tick outputs to equal the DfirTick interpreter's (sequence where order is deterministic, else bag). The interpreter is calibrated on programs and outputs taken from dfir_rs/tests/surface_*.rs.",
-            "note": "Values are small ints/pairs; operators not covered are listed in the evidence (coverage_table/uncovered). Program descriptions given to TLC are the generator's intent.",
+            "note": "Values are small ints/pairs (lattice operators over Max/Min<u64> and SetUnionHashSet<i64>; futures are immediately ready). Covered: every operator of dfir_lang/src/graph/ops except the async stream/blocking ones listed in the evidence (coverage_table / uncovered_operators). The quick tier runs the first generated module (~190 programs); the thorough tier adds a second module (feature progs_x: pull/push pairs of the binary operators, more random / deep / variant programs) and longer histories. Program descriptions given to TLC are the generator's intent.",
             "technique": _TECH, "design_ref": "DESIGN.md §6.12"},
-    "C22": {"text": "Each base program is emitted in shape-perturbed variants (identity/map(id)/handoff() on edges, binary union with an empty source, tee with null, statement order shuffled) that move operators between pull and push sides and split subgraphs; every variant is validated by TLC against the SAME model run as its base, and the dfir_lang compile verdicts of base and variants must agree. Model level: TLC checks ShapeInvariance of the interpreter on a program and its perturbed twin for all histories.",
+    "C22": {"text": "Pull/push PAIR programs (same operator behind a tee and in front of a union, identical input; the two sinks must agree tick by tick, rule pull-vs-push-outputs-differ) for every stateful operator x persistence; and each base program is emitted in shape-perturbed variants (identity/map(id)/handoff() on edges, binary union with an empty source, tee with null, statement order shuffled) that move operators between pull and push sides and split subgraphs; every variant is validated by TLC against the SAME model run as its base, and the dfir_lang compile verdicts of base and variants must agree. Model level: TLC checks ShapeInvariance of the interpreter on a program and its perturbed twin for all histories.",
             "note": "rustc-level type inference differences between shapes are outside the check (generated programs must compile).",
             "technique": _TECH, "design_ref": "DESIGN.md §6.12"},
     "C23": {"text": "Random programs whose blocking inputs (fold/reduce/sort/anti_join neg/join/persist/...) are fed through 1-4 extra same-tick stages crossing handoffs, unions and tees; TLC compares per-tick outputs with the whole-tick reference semantics (blocking inputs read the complete same-tick input by construction of the interpreter).",
@@ -324,7 +335,7 @@ def run(tier):
         e["VERIF_SEED"] = str(vlib.seed())
         subprocess.run([sys.executable, GEN, "--tier", tier, "--out", d, "--exclude",
                         ",".join(str(x) for x in sorted(rejected))], env=e, check=True, stdout=subprocess.PIPE)
-    bindir, out = _cargo_progs()
+    bindir, out = _cargo_progs(extra=thorough)
     if bindir is None:
         # Every program of the corpus compiles on the unchanged tree: generated code of a program that
         # no longer compiles is a violation of the property that program was written for.  Anything
@@ -349,7 +360,7 @@ def run(tier):
         e["VERIF_SEED"] = str(vlib.seed())
         subprocess.run([sys.executable, GEN, "--tier", tier, "--out", d, "--exclude", ",".join(str(x) for x in excl)],
                        env=e, check=True, stdout=subprocess.PIPE)
-        bindir, out2 = _cargo_progs()
+        bindir, out2 = _cargo_progs(extra=thorough)
         if bindir is None:
             vlib.log("rebuild without the failing programs failed too: only %s have a verdict" % sorted(owners))
             part = _Partial()
